@@ -85,8 +85,8 @@ static void verify(Ctx &c, const queue *q, const Model &m, const char *after) {
   }
   std::vector<uint8_t> buf(n, 0xCD);
   int r = mpt_queue_get(q, 0, n, buf.data());
-  if (r < 0) c.label("get:refused-fit");
-  else VP_CHECK(c, buf == want, "get-mismatch", "after %s: mpt_queue_get(0,%zu) gives %s, the deque holds %s (off %zu max %zu)", after, n, hex(buf.data(), n, 24).c_str(),
+  VP_CHECK(c, r >= 0, "fit-refused", "after %s: mpt_queue_get(0,%zu) of exactly what is stored = %d", after, n, r);
+  VP_CHECK(c, buf == want, "get-mismatch", "after %s: mpt_queue_get(0,%zu) gives %s, the deque holds %s (off %zu max %zu)", after, n, hex(buf.data(), n, 24).c_str(),
                 mhex(m, 0, n).c_str(), q->off, q->max);
   size_t low = (size_t)-1;
   const uint8_t *d = (const uint8_t *)mpt_queue_data(q, &low);
@@ -248,7 +248,9 @@ static void run_c(Ctx &c) {
           VP_CHECK(c, l.n <= s.free, "over-ask-accepted", "%s with only %zu of %zu bytes free", what, s.free, s.max);
           if (op == Push) m.insert(m.end(), d.begin(), d.end());
           else m.insert(m.begin(), d.begin(), d.end());
-        }
+        } else if (l.n)  // the deque takes whatever fits: so must the queue (data or NULL = zero fill)
+          VP_CHECK(c, l.n > s.free, "fit-refused", "%s although %zu of %zu bytes are free", what, s.free, s.max);
+        if (zero && l.n && l.n <= s.free) c.label(op == Push ? "qpush:null-source" : "qunshift:null-source");
         VP_CHECK(c, q->len <= q->max && q->off <= q->max, "inv-len", "after %s: off %zu len %zu max %zu", what, q->off, q->len, q->max);
         Seg a = seg(q);
         bool both = a.wrapped && l.n && (op == Push ? (n0 < a.low && n0 + l.n > a.low) : (l.n > a.low));
@@ -283,6 +285,13 @@ static void run_c(Ctx &c) {
         }
         if (!nodata) VP_CHECK(c, d[l.n] == 0xCD, "target-overrun", "%s wrote behind the %zu byte target buffer", what, l.n);
         bool both = s.wrapped && (op == Pop ? l.n > s.high : l.n > s.low);
+        if (!ok && l.n && l.n <= n0) {
+          // documented exception of the C functions: without a target buffer a range that lies in both segments
+          // cannot be handed out as one pointer (errno EINVAL; "target pointer must be supplied if data is non-contiguous")
+          if (nodata && both) c.label(op == Pop ? "qpop:null-target-across-wrap-refused" : "qshift:null-target-across-wrap-refused");
+          else c.fail("fit-refused", "%s (errno %d) although %zu bytes are stored", what, err, n0);
+        }
+        if (ok && nodata && l.n) c.label(op == Pop ? "qpop:null-target" : "qshift:null-target");
         note(c, op, ok, both && l.n <= n0, nt);
         break;
       }
@@ -304,6 +313,7 @@ static void run_c(Ctx &c) {
           if (op == Pre) m.insert(m.begin(), d.begin(), d.end());
           else m.insert(m.end(), d.begin(), d.end());
         }
+        else if (l.n) VP_CHECK(c, l.n > s.free, "fit-refused", "%s although %zu of %zu bytes are free", what, s.free, s.max);
         Seg a = seg(q);
         bool both = a.wrapped && l.n && (op == Post ? (n0 < a.low && n0 + l.n > a.low) : (l.n > a.low));
         note(c, op, r >= 0, both, nt);
@@ -325,7 +335,7 @@ static void run_c(Ctx &c) {
         if (r >= 0) {
           VP_CHECK(c, fits || !l.n, "over-ask-accepted", "%s with only %zu bytes stored", what, n0);
           if (fits) m.erase(m.begin() + pos, m.begin() + pos + l.n);
-        }
+        } else if (l.n) VP_CHECK(c, !fits, "fit-refused", "%s although %zu bytes are stored", what, n0);
         bool both = s.wrapped && l.n && fits && pos < s.low && (pos + l.n > s.low || pos + l.n < n0);
         note(c, op, r >= 0, both, nt);
         if (r >= 0 && fits && pos && l.n && pos + l.n < n0) c.label("crop:middle");
@@ -348,7 +358,7 @@ static void run_c(Ctx &c) {
         if (r >= 0 && l.n) {
           VP_CHECK(c, fits, "over-ask-accepted", "%s with only %zu bytes stored", what, n0);
           for (size_t i = 0; i < l.n; i++) m[pos + i] = d[i];
-        }
+        } else if (l.n) VP_CHECK(c, !fits, "fit-refused", "%s although %zu bytes are stored", what, n0);
         bool both = s.wrapped && fits && pos < s.low && pos + l.n > s.low;
         note(c, op, r >= 0, both, nt);
         break;
@@ -372,6 +382,7 @@ static void run_c(Ctx &c) {
             VP_CHECK(c, !memcmp(d.data(), want.data(), l.n), "get-mismatch", "%s gives %s, the deque holds %s", what, hex(d.data(), l.n, 24).c_str(), hex(want.data(), l.n, 24).c_str());
           }
         }
+        if (r < 0 && l.n) VP_CHECK(c, !fits, "fit-refused", "%s although %zu bytes are stored", what, n0);
         if (!nodata) VP_CHECK(c, d[l.n] == 0xCD, "target-overrun", "%s wrote behind the %zu byte target buffer", what, l.n);
         bool both = s.wrapped && fits && pos < s.low && pos + l.n > s.low && !nodata;
         note(c, op, r >= 0, both, nt);
@@ -386,7 +397,7 @@ static void run_c(Ctx &c) {
         uint8_t *p = (uint8_t *)mpt_queue_empty(q, &low, &high);
         c.logf("  empty() = %s low %zu high %zu", p ? "ptr" : "NULL", low, high);
         if (!p) {
-          if (s.free) c.label("empty:refused-fit");
+          VP_CHECK(c, !s.free, "fit-refused", "empty() = NULL although %zu of %zu bytes are unused", s.free, s.max);
           note(c, op, false, false, nt);
           break;
         }
@@ -448,6 +459,7 @@ static void run_c(Ctx &c) {
           VP_CHECK(c, !memcmp(r, want.data(), n0) && r[n0] == 0, "string-mismatch", "%s: text %s (terminator %02x), the deque holds %s", what, hex(r, n0, 24).c_str(), (uint8_t)r[n0],
                    mhex(m, 0, n0).c_str());
         }
+        else VP_CHECK(c, !s.free, "fit-refused", "%s although %zu of %zu bytes are unused (room for the terminator)", what, s.free, s.max);
         note(c, op, r != 0, s.wrapped, nt);
         break;
       }
@@ -476,7 +488,7 @@ static void run_c(Ctx &c) {
         if (ok) {
           VP_CHECK(c, q->max == n, "resize-capacity", "%s: capacity is %zu", what, q->max);
           if (n < n0) { m.erase(m.begin(), m.begin() + (n0 - n)); c.label("resize:below-fill"); }  // documented: "remove data from queue start"
-        }
+        } else c.fail("fit-refused", "%s: a storage of %zu bytes is refused", what, n);
         note(c, op, ok, s.wrapped && n != s.max && n, nt);
         break;
       }
@@ -519,6 +531,7 @@ static void run_c(Ctx &c) {
         snprintf(what, sizeof what, "prepare(%zu) = %zu", n, r);
         c.logf("  %s", what);
         if (r) VP_CHECK(c, q->len <= q->max && r == q->max - q->len && r >= n, "prepare-size", "%s: %zu bytes unused (max %zu len %zu)", what, q->max - q->len, q->max, q->len);
+        if (!r && n) c.fail("fit-refused", "%s: room for %zu more bytes is refused", what, n);
         note(c, Prepare, r || !n, s.wrapped && n > s.free, nt);
       }
     }
@@ -569,6 +582,7 @@ static void run_cxx(Ctx &c) {
         snprintf(what, sizeof what, "io::queue::prepare(%zu) = %d", n, r);
         c.logf("  %s", what);
         if (r) VP_CHECK(c, q->len <= q->max && q->max - q->len >= n, "prepare-size", "%s: %zu bytes unused (max %zu len %zu)", what, q->max - q->len, q->max, q->len);
+        else c.fail("fit-refused", "%s: room for %zu more bytes is refused", what, n);
         xnote(c, op, r, s.wrapped && n > s.free, nt);
         break;
       }
@@ -588,6 +602,10 @@ static void run_cxx(Ctx &c) {
         if (r) {
           if (op == XPush) m.insert(m.end(), d.begin(), d.end());
           else m.insert(m.begin(), d.begin(), d.end());
+        } else c.fail("fit-refused", "%s: the wrapper grows the storage on demand, %zu bytes must be taken", what, n);
+        if (zero && n) {
+          c.label(op == XPush ? "cxx:push:null-source" : "cxx:unshift:null-source");
+          if (seg(q).wrapped || s.wrapped) c.label("cxx:null-source:wrapped");
         }
         xnote(c, op, r, s.wrapped && n, nt);
         break;
@@ -611,6 +629,15 @@ static void run_cxx(Ctx &c) {
           m.erase(m.begin() + from, m.begin() + from + n);
         }
         if (!nodata) VP_CHECK(c, d[n] == 0xCD, "target-overrun", "%s wrote behind the %zu byte target buffer", what, n);
+        // with or without a target buffer: whatever is stored can be removed (the wrapper drops without copying
+        // when no buffer is given; the C functions' "no pointer across the wrap" limitation does not apply to it)
+        if (!r && n) VP_CHECK(c, n > n0, "fit-refused", "%s although %zu bytes are stored (low %zu high %zu)", what, n0, s.low, s.high);
+        if (r && n) {
+          bool across = s.wrapped && (op == XPop ? n > s.high : n > s.low);
+          char l[LabelLen];
+          snprintf(l, sizeof l, "%s:%s%s", kXOp[op], nodata ? "null-target" : "buffer", across ? ":across-wrap" : s.wrapped ? ":one-segment" : "");
+          c.label(l);
+        }
         xnote(c, op, r, s.wrapped && n <= n0 && (op == XPop ? n > s.high : n > s.low), nt);
         break;
       }
@@ -666,6 +693,7 @@ static void run_cxx(Ctx &c) {
         size_t added = (r > 0 && part) ? (size_t)r * part : 0;
         VP_CHECK(c, q->len == n0 + added, "write-count", "%s, but the content grew by %zd bytes", what, (ssize_t)(q->len - n0));
         m.insert(m.end(), d.begin(), d.begin() + added);
+        if (part) VP_CHECK(c, r == (ssize_t)cnt, "fit-refused", "%s: the wrapper grows the storage on demand, all %zu elements must be taken", what, cnt);
         xnote(c, op, r >= 0, s.wrapped && added, nt);
         break;
       }
@@ -683,6 +711,10 @@ static void run_cxx(Ctx &c) {
         size_t took = (r > 0 && part) ? (size_t)r * part : 0;
         VP_CHECK(c, took <= n0, "over-ask-accepted", "%s with only %zu bytes stored", what, n0);
         VP_CHECK(c, q->len == n0 - took, "read-count", "%s, but the content shrank by %zd bytes", what, (ssize_t)(n0 - q->len));
+        if (part) {
+          size_t avail = n0 / part < cnt ? n0 / part : cnt;
+          VP_CHECK(c, r == (ssize_t)avail, "fit-refused", "%s although %zu complete elements are stored (%zu bytes, low %zu high %zu)", what, n0 / part, n0, s.low, s.high);
+        }
         if (took) {
           // which end "read" takes from is not documented: accept element-wise removal from either end
           bool back = true, front = true;
